@@ -1199,6 +1199,27 @@ impl World {
 			"fees": self.val(fees), "res": r.res(), "retkey": ret})
 	}
 
+	/// owner::get_rewind_hash + owner::scan_rewind_hash: what a view wallet of w's seed is shown
+	pub fn view_scan(&mut self, w: &str, start: u64) -> Value {
+		let inst = self.inst(w);
+		let mask = self.mask(w);
+		let r = guarded(|| {
+			let rh = owner::get_rewind_hash(inst.clone(), mask.as_ref())?;
+			owner::scan_rewind_hash(inst.clone(), rh, Some(start), &None)
+		});
+		let mut ev = json!({"ev": "view_scan", "w": w, "start": start, "res": r.res(), "detail": r.detail(), "outs": [], "total": 0});
+		if let Outcome::Ok(v) = r {
+			let mut outs = vec![];
+			for o in v.output_result.iter() {
+				let name = self.reg.get(&o.commit).cloned().unwrap_or_else(|| format!("?{}", o.commit));
+				outs.push(json!({"o": name, "v": self.val(o.value), "h": o.height, "cb": o.is_coinbase, "lk": o.lock_height}));
+			}
+			ev["outs"] = json!(outs);
+			ev["total"] = self.val(v.total_balance);
+		}
+		ev
+	}
+
 	/// owner::build_output: an output built for the caller with the next key of the active account
 	pub fn build_output(&mut self, w: &str, amount_units: u64) -> Value {
 		let amount = amount_units * self.unit;
